@@ -5,6 +5,8 @@ mod gamestate;
 mod piece;
 mod position;
 mod scores;
+#[cfg(daniel729_chess_verif)]
+pub mod verif_hooks;
 
 use anyhow::{bail, Context};
 use arrayvec::ArrayVec;
